@@ -1,6 +1,7 @@
 import KVerif.Drv.C10
 import KVerif.Drv.Lay
 import KVerif.Drv.C04
+import KVerif.Drv.C13
 open KVerif.Drv
 
 /-- kvdrv <prop>: one case line in, one `M <model> ## S <spec>` line out. -/
@@ -8,6 +9,7 @@ def dispatch (prop : String) : Option (String → String × String) :=
   match prop with
   | "C10" => some C10.run
   | "C04" => some C04.run
+  | "C13" => some C13.run
   | "LALL" => some (Lay.run "LAY")
   | _ => none
 
